@@ -59,7 +59,43 @@ func weighted(t *rapid.T, label string, w ...int) int {
 
 const tokChars = "abcdefghijklmnopqrstuvwxyzABCDEFGHIJKLMNOPQRSTUVWXYZ0123456789-_.!~*'()%+"
 
+// needleSizes: lengths and counts around the thresholds that fixed-size scratch buffers, narrow counters and "fast paths
+// for long tokens" typically use. A violation confined to "the 33rd parameter" or "a token of 256+ bytes" is invisible to
+// uniformly small inputs, so every generator occasionally stretches one element to one of these sizes.
+var needleSizes = []int{15, 16, 17, 31, 32, 33, 63, 64, 65, 66, 100, 127, 128, 129, 130, 200, 255, 256, 257, 258, 300, 511, 512, 513, 1000}
+
+// longN draws one needle size.
+func longN(t *rapid.T, label string) int { return needleSizes[uniformIdx(t, label, len(needleSizes))] }
+
+// oneIn is true with probability 1/n.
+func oneIn(t *rapid.T, label string, n int) bool { return uniformIdx(t, label, n) == 0 }
+
+// genLong draws a string of needle size over the alphabet: random head and tail, a repeated byte in between.
+func genLong(t *rapid.T, label, alphabet string) B {
+	n := longN(t, label+"_len")
+	head := genFromExact(t, label+"_h", alphabet, 3)
+	tail := genFromExact(t, label+"_t", alphabet, 3)
+	fill := alphabet[uniformIdx(t, label+"_f", len(alphabet))]
+	b := append(B{}, head...)
+	for len(b) < n-len(tail) {
+		b = append(b, fill)
+	}
+	b = append(b, tail...)
+	return b[:n]
+}
+
+func genFromExact(t *rapid.T, label, alphabet string, n int) B {
+	b := make([]byte, n)
+	for i := range b {
+		b[i] = alphabet[rapid.IntRange(0, len(alphabet)-1).Draw(t, label)]
+	}
+	return b
+}
+
 func genFrom(t *rapid.T, label, alphabet string, min, max int) B {
+	if max >= 6 && len(alphabet) >= 12 && oneIn(t, label+"_needle", 160) {
+		return genLong(t, label+"_long", alphabet)
+	}
 	n := rapid.IntRange(min, max).Draw(t, label+"_n")
 	b := make([]byte, n)
 	for i := range b {
@@ -79,6 +115,16 @@ func genWS(t *rapid.T, label string) B {
 
 // genLWS: optional linear white space, possibly with a fold (CRLF SP, CR SP, LF HT ...).
 func genLWS(t *rapid.T, label string) B {
+	if oneIn(t, label+"_needle", 120) {
+		// a long run (needle size), plain or folded
+		n := longN(t, label+"_len")
+		unit := pick(t, label+"_unit", " ", " ", "\t", " \t", "\r\n ", "\r\n\t ")
+		var w bytes.Buffer
+		for w.Len() < n {
+			w.WriteString(unit)
+		}
+		return w.Bytes()
+	}
 	return B(pick(t, label, "", "", "", "", " ", " ", "\t", "  ", "\r\n ", "\r\n\t", "\n ", "\r ", " \r\n ", "\r\n  ", " \n\t ", "\r\n \r\n "))
 }
 
